@@ -1,20 +1,20 @@
-SPECIFICATION Spec
+SPECIFICATION FairSpec
 CONSTANTS
   Names = {"device", "attestation", "ui", "signer"}
-  MaxTargets = 2
+  MaxTargets = 1
   MaxCorr = 1
-  CorrKinds = {"sigFlip", "keySubst", "sigSwap", "wrongRoot"}
-  Shapes = {"longTail"}
-  MaxShape = 1
+  CorrKinds = {"sigFlip"}
+  Shapes = {}
+  MaxShape = 0
   ShapeWithCorr = FALSE
-  MaxOps = 0
-  OpKinds = {}
+  MaxOps = 3
+  OpKinds = {"validate", "passive", "clear", "addtarget", "addel"}
   Origins = {"loaded"}
   TweakChoice = {"plain"}
 INVARIANT Agree
 INVARIANT AgreeJudge
-INVARIANT LoadIffWellFormed
 INVARIANT Bounded
 INVARIANT BudgetOk
 PROPERTY Stable
+PROPERTY Terminates
 CHECK_DEADLOCK FALSE
